@@ -87,6 +87,63 @@ def _agg():
         invariants_note="MC config checks oracle self-consistency, equal grand totals at the monthly and bi-monthly level, and the period count")
 
 
+def _clock():
+    from drivers import clock
+
+    def variants(tier, r, cin):
+        return ["witness"]
+
+    def extra(tier):
+        clock.init()
+        out = []
+        # half-hour clock changes (outside the three day kinds): only the number of real clock hours of the day is modelled
+        for date in ("2020-10-04", "2020-04-05"):
+            for ua in (True, False):
+                n = len(clock.local_day_index("Australia/Lord_Howe", date, ua))
+                days = [{"k": "N", "h": 0}, {"k": "X", "h": 0, "n": n}, {"k": "N", "h": 0}]
+                out.append(({"lvl": "api", "zone": "Australia/Lord_Howe", "days": days, "obs": "present", "utc_aligned": ua}, {"tz": "Australia/Lord_Howe", "date": date}))
+        if tier != "thorough":
+            return out
+        for tz, date, kind in clock.iana_transitions():
+            if kind[0] not in ("S", "F"):
+                continue
+            days = [{"k": "N", "h": 0}, {"k": kind[0], "h": kind[1]}, {"k": "N", "h": 0}]
+            out.append(({"lvl": "fn", "zone": tz, "days": days, "obs": "present"}, {"tz": tz, "date": date}))
+        return out
+
+    return runner.PureSpec(
+        prop="C06", module="ClockMC", trace_module="ClockTrace", driver="drivers.clock",
+        cfg={"quick": "Clock_quick.cfg", "thorough": "Clock_thorough.cfg"}, sample={"quick": None, "thorough": None}, variants=variants,
+        spec_files=["Clock.tla", "ClockDefs.tla", "ClockMC.tla", "ClockTrace.tla"], extra_cases=extra,
+        rule="every sequence of <= MaxDays local days over the day kinds {N, S@h, F@h} of four zone classes (Chicago h=2/1, London 1/1, Havana 0/0, "
+             "Sao Paulo 0/23), function level (real _get_dst_indices + _transform_dst with slot-number codes) and API level (HourlyModel.predict "
+             "on a real contiguous frame, observed present/blank/absent); thorough adds the normalisation step on every 23/25-hour day of every "
+             "IANA zone 2000-2037; non-trivial = the sequence contains a clock change",
+        assumptions=["day kinds are realised by real local dates found with zoneinfo; a frame is assembled from UTC hours so skipped/repeated hours are real",
+                     "P-layer constrains which slot a row's value comes from, not how a repeated hour's second value is interpolated",
+                     "zones whose clock change is not a whole hour (Australia/Lord_Howe) or that skip a day are outside the three day kinds and are "
+                     "listed in the evidence, not judged by this module",
+                     "the daily/billing half of C06 (row per timestamp, finiteness pattern) is decided by the RowFrame stage of this check"],
+        invariants_note="MC config checks I => P (the transcribed _transform_dst fence-post slicing returns one value per clock hour from the right slot)")
+
+
+class C06Entry:
+    """C06 = Clock (hourly) + the row-per-timestamp and finiteness clauses of RowFrame (daily, billing)."""
+
+    def run(self, tier):
+        rc1 = runner.run_pure(_clock(), tier, evidence_suffix="")
+        rc2 = runner.run_pure(_rowframe("C06"), tier, evidence_suffix="_rowframe", owned={"PredictReturns", "OneRowPerInputTimestamp", "PredictedExactlyOnUsableRows"})
+        runner.merge_evidence("C06", ["C06", "C06_rowframe"])
+        return 1 if (rc1 or rc2) else 0
+
+    def replay(self, payload):
+        spec = _clock() if payload.get("module") == "ClockMC" else _rowframe("C06")
+        return runner.run_pure(spec, "quick", only_cases=[payload["case"]])
+
+    def selftest(self):
+        return runner.selftest_pure(_clock())
+
+
 class LifeEntry:
     def __init__(self, prop):
         self.prop = prop
@@ -104,7 +161,7 @@ class LifeEntry:
         return lifeprops.selftest(self.prop)
 
 
-_REG = {"C20": lambda: PureEntry(_window()), "C07": lambda: PureEntry(_rowframe("C07")), "C19": lambda: PureEntry(_agg())}
+_REG = {"C20": lambda: PureEntry(_window()), "C07": lambda: PureEntry(_rowframe("C07")), "C19": lambda: PureEntry(_agg()), "C06": lambda: C06Entry()}
 for _p in ("C01", "C02", "C03", "C04", "C05"):
     _REG[_p] = (lambda p: (lambda: LifeEntry(p)))(_p)
 
